@@ -30,8 +30,9 @@ var (
 )
 
 type xmpReader struct {
-	r *bufio.Reader
-	a bool
+	r   *bufio.Reader
+	a   bool
+	eof bool // the source has reported io.EOF to Peek
 }
 
 func newXMPReader(r io.Reader) xmpReader {
@@ -81,7 +82,19 @@ func (br *xmpReader) hasAttribute() bool {
 }
 
 func (br *xmpReader) Peek(n int) (buf []byte, err error) {
-	if buf, err = br.r.Peek(n); err == io.EOF {
+	if br.eof && n > br.r.Buffered() {
+		// The source has already reported the end of the stream: bufio would ask it
+		// again for a buffer-full on every look-ahead, once per remaining token.
+		buf, _ = br.r.Peek(br.r.Buffered())
+		if n > br.r.Size() {
+			return buf, bufio.ErrBufferFull
+		}
+		err = io.EOF
+	} else {
+		buf, err = br.r.Peek(n)
+	}
+	if err == io.EOF {
+		br.eof = true
 		if len(buf) > 4 {
 			return buf, nil
 		}
